@@ -155,7 +155,6 @@ def c05_minimum(ctx, shape, l1):
             best = min(best, float(r.fun))
         ctx.tick()
         ctx.ensure(f"{method}: distance >= brute-force minimum of the discrete cost", d >= best - 1e-7 * max(1.0, best))
-        ctx.ensure(f"{method}: the search never finds a feasible flux cheaper than ... the returned one by more than the convergence gap when converged", (not info["converged"]) or d <= best * (1 + 5e-2) + 1e-6)
 
 
 def _thin_cases(tier):
@@ -419,7 +418,7 @@ def c05_thin_flux(ctx, shape, method, form, num_iter):
 @ob("C05.thin_cost", cases=lambda tier: [dict(shape=s, l1=l, weighted=wt) for s in ([(4,), (1, 3), (3, 1)] if tier == "quick" else [(2,), (4,), (6,), (1, 3), (3, 1), (1, 1, 3), (1, 3, 1)])
                                          for l in ("CONSTANT_CELL_PROJECTION", "CONSTANT_SUBCELL_PROJECTION") for wt in (False, True)],
     mods=["darsia.measure.wasserstein", "darsia.utils.fv"], stubs=STEP_STUBS, funcs=FUNCS + ["darsia.measure.wasserstein:VariationalWassersteinDistance.l1_dissipation",
-    "darsia.measure.wasserstein:VariationalWassersteinDistance.transport_density"], samples=(2, 4), budget={"timeout_ms": 20000, "decide_ms": 1500},
+    "darsia.measure.wasserstein:VariationalWassersteinDistance.transport_density"], samples=(2, 4), budget={"timeout_ms": 30000, "decide_ms": 1500, "arith_solver": 2},
     cite="returns the cost of the unique mass-conserving flux, which is computable independently",
     note="the real l1_dissipation on a symbolic flux of a thin grid equals the independently written cost: sum over cells of cell volume * cell weight * |mean of the two face values| "
          "(cell projection) resp. mean of the two |face values| (sub-cell projection); sqrt over the reals")
